@@ -13,3 +13,4 @@ INVARIANT LawExpectedPopulated
 INVARIANT LawAccepts
 INVARIANT LawImplConforms
 INVARIANT LawSchema
+INVARIANT LawReuse
